@@ -128,7 +128,8 @@ class CanDynamicSchema: public ICanSchema {
 
                 if (impl.name == msg_name) {
                     std::array<char, 4> bus_name = {0};
-                    std::copy(impl.fields.at("bus").begin(), impl.fields.at("bus").end(), bus_name.begin());
+                    const auto& bus = impl.fields.at("bus");
+                    std::copy_n(bus.begin(), std::min<std::size_t>(bus.size(), bus_name.size()), bus_name.begin());
                     return bus_name;
                 }
             }
